@@ -1,41 +1,41 @@
 #!/venv/bin/python
-"""Annotate /verif/seeded/C??r3_*/meta.json with the round number, the measured first run and what was added."""
+"""Annotate /verif/seeded/C??r4_*/meta.json with the round number, the measured first run and what was added."""
 import glob
 import json
 import os
 
 FIRST = {
-    "C01": "MISSED on the first run (measured): no condition of the C01 family returned a non-coroutine awaitable; the selector `amode` (plain / coroutine function / plain returning a coroutine / plain returning a Future-like awaitable) was added to the async harnesses, detected since (C13 had that mode already, but the change is judged against C01's check)",
-    "C02": "MISSED on the first run (measured): the property kinds of the generic program model gave the *other* accessors of the property no contracts; contracted, always-falsy, logging sibling accessors were added to vfw/build.py and a sibling check to C01/C02, detected since",
-    "C03": "MISSED on the first run (measured): no class of the family derived from a built-in container without a Python __init__; shape `list_sub` (and `plain_init_alias`, `dbc_sub_init_over_noinit` for the defects repaired in the same round) was added, detected since",
-    "C04": "MISSED on the first run (measured): same edit as C02 round 1 / C18 round 1 (`find_checker` returns the outermost carrier), found independently a third time; harness C04 had no foreign functools.wraps decorator above an override's contracts; bit `fg` was added, detected since",
-    "C05": "MISSED on the first run (measured): every postcondition of the C05 family asked for OLD itself; bit `po` (only the error factory asks for OLD, and it has a defaulted parameter unknown to f) was added, detected since",
-    "C06": "MISSED on the first run (measured): all values of the family had a structural `==`; displays holding an always-equal object / an object whose `==` has no truth value were added to the expression family, detected since",
-    "C07": "MISSED on the first run (measured): no guard had two `if` filters in one `for` clause of an all(...); three such guards (one probe-logged) were added, detected since",
-    "C08": "MISSED on the first run (measured): the misuse family had unnamed captures with zero and with two mandatory parameters only; cases 10/11 (parameters with default values) were added, detected since",
-    "C09": "detected by the check as it was (falsy exception forms on async functions)",
-    "C10": "detected by the check as it was (graph_bodies: recursive calls made by a body)",
-    "C11": "MISSED on the first run (measured): coroutines were always closed from the context they ran in; injection how=2 (closed from another context while the coroutine's own context carries the mark of another function, then that other context is probed) was added, detected since",
-    "C12": "MISSED on the first run (measured, on the tree before fix bc8a75c): no child task was spawned from the body of a precondition-only async function. The harness `spawn_from_inside` (real threads / real asyncio tasks) was added and catches the change on that tree (checked natively: afunc_pre_only / body, the violating child call returns). On the current tree the marks name their owner, the child task is checked and the change NO LONGER VIOLATES C12 (its demonstration exits 0); it still breaks C10 (a body awaiting its own function in the same task) and is caught by C10's `graph_*` harnesses like C10r3",
-    "C13": "detected by the check as it was (cmode 3: plain functions returning non-coroutine awaitables)",
-    "C14": "MISSED on the first run (measured): every foreign decorator of the stacks copied __dict__; bit `fd` (functools.wraps(fn, updated=())) was added, detected since",
-    "C15": "MISSED on the first run (measured): no call passed a reserved keyword; bit `kwcall` (f(1, _ARGS=...) on a function with **kwargs) was added to the explicitly-enabled harnesses, detected since (under -O and -OO)",
-    "C16": "MISSED on the first run (measured): same edit as C04r3 (a fourth independent occurrence of `find_checker` returning the outermost carrier); bit `fg` was added to the overriding-method order harnesses, detected since",
-    "C17": "MISSED on the first run (measured): the post-hoc `require` step existed for methods only; step `posthoc_require_on_bare_property_override` was added, detected since",
-    "C18": "MISSED on the first run (measured): constructor calls were judged for classes with __init__ and CALL invariants only; harness `ctor_invariants` (5 class shapes x check_on of two invariants) was added, detected since",
-    "C19": "MISSED on the first run (measured): the invalid `error` values were all non-callable; callable object / functools.partial / builtin were added, detected since",
-    "C20": "MISSED on the first run (measured): user-supplied limits were only given to preconditions; selector `role` (precondition / postcondition / invariant / inherited invariant) was added to `limits`, detected since",
+    "C01": "MISSED on the first run (measured): no two groups of the family shared a predicate function; harness `shared_predicate_pre` (chain and two-bases shapes) was added, detected since",
+    "C02": "MISSED on the first run (measured): the C02 family was linear chains only; harness `two_bases_post` (a second, contract-less base providing the member; method / classmethod / staticmethod / __str__) was added, detected since (C04's dag harness has such hierarchies, but the change is judged against C02's check)",
+    "C03": "MISSED on the first run (measured): the family had no async public method, and every operation of a sequence ran in a context of its own, which hid a mark left behind by an earlier operation; operation `apub` was added and the whole sequence of a path now runs in one fresh context, detected since",
+    "C04": "MISSED on the first run (measured): all ancestors of the family provided the member as a Python function; harness `nonpython_provider` (built-in base, slot wrapper of object, functools.lru_cache above the contracts) was added, detected since",
+    "C05": "MISSED on the first run (measured): the defaulted parameter of the error factory introduced after round 3 was not a name of the call; in the `po == False` variants the capture and the error factory now declare the function's named parameters with defaults of their own, detected since",
+    "C06": "MISSED on the first run (measured): no variable of the generated modules shadowed a built-in name (and the completeness oracle skipped every name found in builtins); global `hash = 9`, two expressions and an oracle that skips only the built-in object itself were added, detected since",
+    "C07": "MISSED on the first run (measured): no description contained a brace; the description of the `description` configuration now contains `{name}`, `{}` and a lone `{`, detected since",
+    "C08": "MISSED on the first run (measured): every capture of the family had one parameter; harness `multi_parameter_capture` (three parameters in another order than the function's, six call styles, def / async def) was added, detected since",
+    "C09": "MISSED on the first run (measured): the non-exception returned by the error factory was a string; form `none_factory` was added, detected since",
+    "C10": "MISSED on the first run (measured): every check process imports asyncio before icontract; harness `import_order_tasks` (fresh interpreter, both import orders, tasks created inside marked regions) was added, detected since",
+    "C11": "MISSED on the first run (measured): the invariant's truth did not depend on the body; bit `brk` (the injected body fault leaves the invariant broken) was added, detected since",
+    "C12": "MISSED on the first run (measured): C11's cross-context close (round 3) had no counterpart in C12's check; harness `abandoned_child` (real tasks; a suspended child finalised from its creator) was added, detected since",
+    "C13": "MISSED on the first run (measured): all conditions of a level were written the same way; `cmode` 4 (coroutine functions at even positions, plain at odd) was added, detected since",
+    "C14": "MISSED on the first run (measured): the foreign decorators over `async def` were themselves `async def`; harness `colour_changing_foreign_decorator` was added, detected since",
+    "C15": "MISSED on the first run (measured): no definition-time rejection was compared across interpreter modes; harnesses `definition_guards_<mode>` were added, detected since (in all three modes: the class is accepted where ValueError is due)",
+    "C16": "MISSED on the first run (measured): all error factories of the C16 family returned truthy exceptions; configuration (method, falsy_factory) was added, detected since",
+    "C17": "detected by the check as it was (step `decorate_same_bare_again`)",
+    "C18": "detected by the check as it was (`hook`: classes with their own invariant decorators are announced more than once to the recorder)",
+    "C19": "MISSED on the first run (measured): the reserved keyword was only passed to functions with **kwargs; two misuse kinds without **kwargs (violated precondition; a condition reading _KWARGS) were added, detected since",
+    "C20": "MISSED on the first run (measured): no condition of the C20 family read a private attribute. OBSOLETE since fix e752837 of the same round: the changed line (`sorted(self._code_names)`) no longer exists - the mangled name is now derived from the condition's qualified name, no set is iterated. The harness `private_names` (six hash seeds) was added all the same; on the tree the change was written for it alarms with and without the change, because of the defect e752837 repairs (the alphabetically first candidate won)",
 }
 
-for d in sorted(glob.glob("/verif/seeded/C??r3_*")):
+for d in sorted(glob.glob("/verif/seeded/C??r4_*")):
     prop = os.path.basename(d)[:3]
     meta = json.load(open(os.path.join(d, "meta.json")))
     first = json.load(open(os.path.join(d, "first_run.json")))
-    meta["round"] = 3
+    meta["round"] = 4
     meta["first_run_detected"] = bool(first.get("detected"))
-    meta["first_run"] = {"base": "cf8350e", "check_run": first.get("check_run"), "patch": "patch_on_cf8350e.diff",
+    meta["first_run"] = {"base": "17adb11", "check_run": first.get("check_run"), "patch": "patch_on_17adb11.diff",
                          "log": "first_run_check.log"}
-    meta["base"] = "17adb11 (patch.diff applies to it)"
+    meta["base"] = "0a138e0 (patch.diff applies to it)" if prop != "C20" else "17adb11 (obsolete on later trees)"
     meta["first_encounter"] = FIRST[prop]
     json.dump(meta, open(os.path.join(d, "meta.json"), "w"), indent=1)
     print(os.path.basename(d), "first:", meta["first_run_detected"], "now:", meta["detected"])
